@@ -137,6 +137,9 @@ var operatorsOfKind = [...][22]bool{
 	reflect.Complex128: complexOperators,
 	reflect.String:     stringOperators,
 	reflect.Interface:  interfaceOperators,
+
+	// No operator is defined on the other kinds.
+	reflect.UnsafePointer: {},
 }
 
 var constantKindName = map[reflect.Kind]string{
